@@ -630,7 +630,7 @@ func dischargeAll(res *FnResult, opt solveOpts, sem chan struct{}) {
 	}
 	budget := opt.budgetS
 	if budget <= 0 {
-		budget = 240
+		budget = 600
 	}
 	deadline := start.Add(time.Duration(budget) * time.Second)
 	for i, o := range res.Obls {
